@@ -26,3 +26,6 @@ def check(A):
     # the packet-count gate is exact (rule shared with C02)
     from . import C02
     C02.check(A, only_decode=True, prefix='C07')
+    R.heartbeat_config_rule(A, 'C07')
+    for fl in S.FLAVOURS:
+        S.ping_callers_rule(A, fl, 'C07')
